@@ -240,7 +240,11 @@ def check_case(case):
     f = xfn.make_fn(argnames + extra, kind=fkind, name="f06", defaults=defaults)
     f1 = xfn.make_fn(argnames + extra, kind=fkind, name="f06", version=1,
                      defaults=defaults)
-    d = core.fresh_dir("c06.results[1].xyz-batch-1")
+    # (every other case in a plain directory: a tree that globs without
+    # escaping is blind - or waits for ever - in the other kind)
+    d = core.fresh_dir("c06.results[1].xyz-batch-1" if core.pick(
+        [case.get("farmer"), case.get("n"), case.get("mode"), case.get("req"),
+         "dir"], 2) and not case.get("wait") else "c06")
     dt = core.fresh_dir("c06twin")
     vio = []
 
